@@ -40,7 +40,8 @@ CASE_TIMEOUT = 10
 RULE = (
     "comp stream: random dependency shapes of 1-5 harness components (0-3 inputs / 0-3 outputs each, links to any "
     "output incl. own; link layouts: direct, behind one Scale, behind a chain of two, ONE Scale instance shared by "
-    "several inputs, dead-end adapters on outputs), infos from constructor / try_connect arguments with random "
+    "several inputs, dead-end adapters on outputs, time delay adapters DelayFixed / DelayToPull / one shared DelayFixed on "
+    "pulled links with staggered start times), infos from constructor / try_connect arguments with random "
     "dependencies on own in_infos, in_data, out_infos / transfer rules FromInput, FromOutput, FromValue; initial "
     "pulls on a random subset of inputs; data provision depending on pulled data (rings, blocked pairs, rings with "
     "one breaker); producers starting later than the composition; static outputs; cache on/off; dangling outputs; "
@@ -139,8 +140,10 @@ def _gen_comp(rng, malformed=False):
                 cand = other or cand
             src = rng.choice(cand)
             comps[k]["ins"].append(len(ins))
-            ins.append(_inp(src, static=outs[src]["static"],
-                            via=rng.choice(["direct", "direct", "direct", "scale", "chain", "shared0", "shared0", "shared1"])))
+            vias = ["direct", "direct", "direct", "scale", "chain", "shared0", "shared0", "shared1"]
+            if not outs[src]["static"]:
+                vias += ["dfixed", "dfixed", "dpull", "sdfixed0", "sdfixed0"]
+            ins.append(_inp(src, static=outs[src]["static"], via=rng.choice(vias)))
     # fill in the specs
     for k in range(n):
         c = comps[k]
@@ -404,6 +407,11 @@ def _corpus():
                           _inp(0, own=0, via="shared1")],
                   "outs": [_out(prov_info=[[], 0], prov_data=[[], 10], spare=True)],
                   "comps": [_comp([0, 1], [], 0), _comp([2], [0], 0)]})
+    # seeded/C06_h: time delay adapters on links that are pulled during connect, staggered start times:
+    # the adapter clamps the initial request to the PRODUCER's start, whatever the consumer's own start is
+    for via_a, via_b in (("dfixed", "dfixed"), ("dpull", "dpull"), ("sdfixed0", "sdfixed0"), ("dfixed", "direct")):
+        for times in ([0, 4 * DAY, 0, 9 * DAY], [9 * DAY, 4 * DAY, 9 * DAY, 0], [0, 0, 0, 0]):
+            cs += _perms(_delay_family(via_a, via_b, times), limit=24 if via_a == "sdfixed0" else 6)
     # seeded/C06_f: a complete transfer followed by a rule overwriting a metadata field must not touch the source slot
     for extra in ([["meta", "units", "mm"]], [["meta", "tag", "stored water"]],
                   [["meta", "units", "mm"], ["meta", "tag", "stored water"]], []):
@@ -416,6 +424,16 @@ def _corpus():
                            dict(_out(prov_info=[[], 0], prov_data=[[], 12]), tag="level")],
                   "comps": [_comp([], [0, 1], 0), _comp([0, 1], [2], 0)]})
     return cs
+
+
+def _delay_family(via_a, via_b, times):
+    """Source.Out -> Mid.In (via_a), Source.Out -> Side.In (via_b), Mid.State -> Last.In (via_a); all pulled."""
+    ts, tm, tsd, tl = times
+    return {"kind": "comp", "start": min(times), "auto_start": False,
+            "ins": [_inp(0, own=tm, pull=True, via=via_a), _inp(0, own=tsd, pull=True, via=via_b),
+                    _inp(1, own=tl, pull=True, via=via_a if via_a != "sdfixed0" else "dfixed")],
+            "outs": [_out(prov_info=[[], ts], prov_data=[[], 10]), _out(prov_info=[[], tm], prov_data=[[["pull", 0]], 11])],
+            "comps": [_comp([], [0], ts), _comp([0], [1], tm), _comp([1], [], tsd), _comp([2], [], tl)]}
 
 
 def _meta_family(extra):
@@ -605,6 +623,23 @@ def _nominal_out(sp):
     return -2
 
 
+DELAY_VIAS = ("dfixed", "dpull", "sdfixed0")
+
+
+def _is_delay(via):
+    return via in DELAY_VIAS
+
+
+def _evicted(case, o, ins_obs):
+    """Output._clear_data: once EVERY pinged end point of the output has pulled, entries older than the oldest
+    request are dropped.  During connect plain links request the composition start, links with a time delay adapter
+    request the producer's start (the adapter clamps to it), so the entry for the composition start goes exactly when
+    all end points of the output sit behind delay adapters and all of them have pulled."""
+    mine = [i for i, isp in enumerate(case["ins"]) if isp["src"] == o]
+    return bool(mine) and all(_is_delay(case["ins"][i]["via"]) and case["ins"][i]["pull"] and ins_obs[i][1] is not None
+                              for i in mine)
+
+
 def _link_all(case, out_obj, in_obj):
     """direct / one Scale / a chain of two Scales per input / ONE Scale instance shared by all inputs of the
     same source with the same group tag; plus dead-end adapters on outputs marked spare."""
@@ -615,12 +650,16 @@ def _link_all(case, out_obj, in_obj):
             out >> fm.adapters.Scale(1.0) >> inp
         elif via == "chain":
             out >> fm.adapters.Scale(1.0) >> fm.adapters.Scale(1.0) >> inp
-        elif via.startswith("shared"):
+        elif via.startswith("shared") or via.startswith("sdfixed"):
             key = (sp["src"], via)
             if key not in shared:
-                shared[key] = fm.adapters.Scale(1.0)
+                shared[key] = fm.adapters.Scale(1.0) if via.startswith("shared") else fm.adapters.DelayFixed(fin.D(DAY))
                 out >> shared[key]
             shared[key] >> inp
+        elif via == "dfixed":
+            out >> fm.adapters.DelayFixed(fin.D([1, DAY, 3 * DAY][i % 3])) >> inp
+        elif via == "dpull":
+            out >> fm.adapters.DelayToPull(steps=1 + i % 2, additional_delay=fin.D([0, DAY][(i // 2) % 2])) >> inp
         else:
             out >> inp
     for o, sp in enumerate(case["outs"]):
@@ -827,7 +866,13 @@ def coq_obs(case, obs):
         circ = NONE if obs["error"] is None else Some(L(N(k) for k in obs["stall_names"]))
         fin_ = L(obs["final"])
         ins = L(P(OZ(t), ON(p)) for t, p in obs["ins"])
-        outs = L(P(OZ(h), B(ip), B(dp), L(P(OZ(t), N(p)) for t, p in data)) for h, ip, dp, data in obs["outs"])
+        outs_c = []
+        for o, (h, ip, dp, data) in enumerate(obs["outs"]):
+            if dp and not case["outs"][o]["static"] and h is not None and h != case["start"] and len(data) == 1 \
+                    and data[0][0] == h and _evicted(case, o, obs["ins"]):
+                data = [[case["start"], data[0][1]]] + data   # see _evicted
+            outs_c.append((h, ip, dp, data))
+        outs = L(P(OZ(h), B(ip), B(dp), L(P(OZ(t), N(p)) for t, p in data)) for h, ip, dp, data in outs_c)
         return C("ObsComp", C("mk_cobs", ev, circ, fin_, ins, outs))
     items = []
     for r in obs["results"]:
@@ -1047,6 +1092,8 @@ def _monitor_comp(case, obs):
             if got != ((nm, o) in D):
                 return f"output {o}: {nm} done = {got}, derivable = {(nm, o) in D}"
         exp = _expected_data(case, o, h) if dp else []
+        if len(exp) == 2 and _evicted(case, o, obs["ins"]):
+            exp = exp[1:]
         if data != exp:
             return f"output {o}: initial publications {data}, expected {exp} (start {case['start']}, producer info time {h})"
     return _monitor_meta(case, obs)
@@ -1137,6 +1184,7 @@ def distribution(cases, obss):
             a["via"].startswith("shared") and b["via"] == a["via"] and a["src"] == b["src"]
             for x, a in enumerate(c["ins"]) for y, b in enumerate(c["ins"]) if x < y)
         feats["spare_adapter"] += any(o.get("spare") for o in c["outs"])
+        feats["delay_adapter_on_pulled_link"] += any(_is_delay(i["via"]) and i["pull"] for i in c["ins"])
         feats["self_link"] += any(c["ins"][i]["src"] in k["outs"] for k in c["comps"] for i in k["ins"])
     rounds = Counter(min(len(o["events"]) // max(1, len(c["comps"])), 8) for c, o in zip(cases, obss) if c["kind"] == "comp" and "events" in o)
     return {"kinds": dict(kinds), "components": dict(ncomp), "outcome": dict(outcome), "stuck_components": dict(nstuck),
